@@ -213,7 +213,7 @@ func cmdCheck(args []string) int {
 			*nw = 16
 		}
 	}
-	timeoutMs := 10000
+	timeoutMs := 30000 // slowest quick-tier query measured on the unchanged tree: 4.5 s (C40)
 	if thorough {
 		timeoutMs = 120000
 	}
